@@ -17,6 +17,17 @@ def f1_rotation(k=7):
     return dict(funcs=[f0], ginit=[], gpkg=[], npkgs=1)
 
 
+def f30_nested_loops(k=6):
+    """var x0 *T; k nested `for opaque()` loops around x0.V: the consumer needs one round per enclosing loop to reach
+    the entry block, the rounds in between leave the entry triggers unchanged and count as stable: with k >= 6 the
+    backward propagation stops (5 stable rounds) before the dereference is seen"""
+    body = ("deref", 1, L(0))
+    for _ in range(k):
+        body = ("while", ("opaque",), body)
+    f0 = dict(nparams=0, pkg=0, method=False, body=M.seq([body]))
+    return dict(funcs=[f0], ginit=[], gpkg=[], npkgs=1)
+
+
 def f2_global_across_call():
     """G0 = &T{}; F1(); G0.V   with F1 assigning nil to G0"""
     f0 = dict(nparams=0, pkg=0, method=False, body=M.seq([("assign", G(0), "new"), ("call", None, 1, [], 1), ("deref", 1, G(0))]))
@@ -53,6 +64,7 @@ def c02_cases():
 def cases():
     return [Case("kf1rot7", f1_rotation(7), "corpus"), Case("kf1rot3", f1_rotation(3), "corpus"),
             Case("kf2glob", f2_global_across_call(), "corpus"),
+            Case("kf30nest6", f30_nested_loops(6), "corpus"), Case("kf30nest4", f30_nested_loops(4), "corpus"),
             Case("kf4xpkg", f4_cross_package_contract(), "corpus"), Case("kf4same", f4_same_package_control(), "corpus")]
 
 
